@@ -18,7 +18,7 @@ SPEC = dict(
          "with 18 Retry-After forms incl. HTTP dates around 60 s, transport timeouts and errors, real client time-outs, closed "
          "connections), 1-4 destinations sharing host/key/dataset components, MaxBatchSize 1..16, BatchTimeout 1 ms..30 s, event "
          "sizes from 60 B to 1.2 MB incl. 1 000 000 +- 1 and sub-batches filled to 5 000 000 +- 1 bytes, marshal failures, "
-         "unbuildable URLs; clock advances land on / 1 ns around ticker instants and staleness instants; non-trivial = at least "
+         "unbuildable URLs, occasionally a dataset named '..', '.' or '' (known finding: url.JoinPath cleans it away); clock advances land on / 1 ns around ticker instants and staleness instants; non-trivial = at least "
          "three events enqueued and at least one request observed; distinct by transcript hash",
     trusted_base=["net/http client + server (in-process over net.Pipe), klauspost zstd, tinylib/msgp, vmihailenco/msgpack",
                   "clockwork.FakeClock (tickers, Now); Clock.Sleep is recorded and returns immediately",
@@ -35,7 +35,9 @@ SPEC = dict(
              "order, drops exactly the >1 MB / unmarshalable events (each counted as an error) and never builds a body over 5 000 000 bytes; "
              "every event is in exactly one batch of its own (host, key, dataset); batches hold at most MaxBatchSize events; every batch is "
              "dispatched before its first event is 1.25 x BatchTimeout old; at most two attempts per sub-batch; Stop leaves nothing pending; "
-             "queued-items ups = downs + pending in every reachable state over every response branch. Model tied to transmit/direct_transmit.go "
+             "queued-items ups = downs + pending in every reachable state over every response branch. The addressing claim for every dataset "
+             "name is refuted (FullStatement / full_statement_refuted: datasets '..', '.', '' lose their path segment) and proved for all other "
+             "names (request_path_own_dataset_partial). Model tied to transmit/direct_transmit.go "
              "by replaying generated schedules on the real DirectTransmission and comparing every request (destination, body length, events, "
              "clock), all counters and the gauge with the model after every operation, plus a monitor of the property on the observations.",
         note="Trusted: Lean kernel; differential harness (sampled); net/http, msgpack and zstd libraries; fake clock. Concurrency between "
